@@ -37,7 +37,13 @@ def build_case(R, tier, min_frags=1, classes=None, kinds=('$', '><')):
     owner = molgen.partition(R, m, max_frags=hi, min_frags=lo)
     feats = {'mol:' + cname}
     style = molgen.style_draw(R)
-    s, info = molgen.build_cgsmiles(R, m, owner, kinds=kinds, style=style, feats=feats)
+    mr = m
+    if m.arom_rings and R.chance(0.3):
+        # aromatic rings written in Kekule form (upper-case atoms, alternating bonds); cut ring
+        # bonds then carry order 1 or 2 on their descriptors, the result is still aromatic
+        mr = molgen.kekulized(R, m)
+        feats.add('kekule_rendering')
+    s, info = molgen.build_cgsmiles(R, mr, owner, kinds=kinds, style=style, feats=feats)
     if s is None:
         return None, None, None
     nfr = info['nfr']
@@ -66,7 +72,8 @@ def gen(R, tier):
         return None
     info = x['info']
     # uncut molecule as a single fragment
-    single, _ = molgen.render_fragment(R, m, list(range(len(m.atoms))), {}, x['style'])
+    ms = molgen.kekulized(R, m) if (m.arom_rings and R.chance(0.3)) else m
+    single, _ = molgen.render_fragment(R, ms, list(range(len(m.atoms))), {}, x['style'])
     # base graph as nx.Graph with shuffled insertion order
     order = list(info['base'].nodes)
     R.shuffle(order)
